@@ -53,7 +53,7 @@ impl Op {
                 self.w,
                 self.name(),
                 self.key,
-                if self.with_handle { ",handle=known" } else { "" },
+                if self.with_handle && matches!(self.k, K::Unregister | K::Dispose | K::Write) { ",handle=as_returned_by_register/lookup" } else { "" },
                 match self.ts {
                     Some(o) => format!(",ts=now{o:+}ms"),
                     None => String::new(),
@@ -495,7 +495,7 @@ pub fn run(shard: &Shard) -> Report {
             let seen = rep.violation_counts.get(sig).cloned().unwrap_or(0);
             let mut r = replay.clone().set("violation", sig.clone());
             let mut what = what.clone();
-            if seen < 1 || shard.replay.is_some() {
+            if seen < 1 {
                 let mut budget = 200usize;
                 let cut = (*at_step).min(ops.len() - 1);
                 let min = ddmin(
